@@ -421,6 +421,8 @@ pub struct BatchOut {
     pub values: Vec<(usize, f64)>,
     pub expected_values: usize,
     pub count: Option<usize>,
+    /// what `count` should be when it is not the number of arguments (two-stage chains)
+    pub count_due: Option<usize>,
     pub size_hint: Option<(usize, Option<usize>)>,
     /// inputs pulled from the simulator's feed
     pub pulled: u64,
@@ -481,7 +483,7 @@ impl<T: Piece> Target for Piecewise<T> {
             feed.push(x);
         }
         let n = xs.len();
-        let mut out = BatchOut { values: Vec::new(), expected_values: n, count: None, size_hint: None, pulled: 0 };
+        let mut out = BatchOut { values: Vec::new(), expected_values: n, count: None, count_due: None, size_hint: None, pulled: 0 };
         match mode {
             M::Collect => {
                 let v: Vec<f64> = self.evaluate_v(feed.clone()).collect();
@@ -549,6 +551,13 @@ impl<T: Piece> Target for Piecewise<T> {
                     out.values.push((taken + j, y));
                 }
             }
+            M::Chain { head, k, tail, vec_input } => {
+                if vec_input {
+                    run_chain(self.evaluate_v(xs.to_vec()), head, k, tail, n, &mut out);
+                } else {
+                    run_chain(self.evaluate_v(feed.clone()), head, k, tail, n, &mut out);
+                }
+            }
             M::CycleInput => {
                 if n > 0 {
                     let v: Vec<f64> = self.evaluate_v(xs.to_vec().into_iter().cycle()).take(n).collect();
@@ -572,6 +581,108 @@ impl<T: Piece> Target for Piecewise<T> {
         }
         out.pulled = feed.pulls();
         out
+    }
+}
+
+/// Two-stage consumption of one `evaluate_v` stream (see `BatchMode::Chain`). Never polls the stream
+/// again after it has returned `None` (the generator keeps `k` within the sequence).
+fn run_chain<I: Iterator<Item = f64>>(mut it: I, head: u8, k: usize, tail: u8, n: usize, out: &mut BatchOut) {
+    // (first index, stride, number of elements) of what the tail stage will see
+    let (base, stride, cnt);
+    out.values.clear();
+    fn finish<J: Iterator<Item = f64>>(r: J, tail: u8, base: usize, stride: usize, cnt: usize, out: &mut BatchOut) {
+        let seen = out.values.len();
+        match tail {
+            0 => {
+                let v = r.fold(Vec::new(), |mut acc, y| {
+                    acc.push(y);
+                    acc
+                });
+                out.values.extend(v.into_iter().enumerate().map(|(j, y)| (base + j * stride, y)));
+                out.expected_values = seen + cnt;
+            }
+            1 => {
+                let mut j = 0;
+                let vals = &mut out.values;
+                r.for_each(|y| {
+                    vals.push((base + j * stride, y));
+                    j += 1;
+                });
+                out.expected_values = seen + cnt;
+            }
+            2 => {
+                if let Some(y) = r.last() {
+                    out.values.push((base + cnt.saturating_sub(1) * stride, y));
+                }
+                out.expected_values = seen + usize::from(cnt > 0);
+            }
+            3 => {
+                out.count = Some(r.count());
+                out.count_due = Some(cnt);
+                out.expected_values = seen;
+            }
+            _ => {
+                let mut j = 0;
+                for y in r {
+                    out.values.push((base + j * stride, y));
+                    j += 1;
+                }
+                out.expected_values = seen + cnt;
+            }
+        }
+    }
+    match head {
+        0 => {
+            let k = k.min(n);
+            for j in 0..k {
+                if let Some(y) = it.next() {
+                    out.values.push((j, y));
+                }
+            }
+            base = k;
+            stride = 1;
+            cnt = n - k;
+            finish(it, tail, base, stride, cnt, out);
+        }
+        1 if n > 0 => {
+            let k = k.min(n - 1);
+            if let Some(y) = it.nth(k) {
+                out.values.push((k, y));
+            }
+            base = k + 1;
+            stride = 1;
+            cnt = n - base;
+            finish(it, tail, base, stride, cnt, out);
+        }
+        2 | 1 => {
+            let k = k.min(n);
+            base = k;
+            stride = 1;
+            cnt = n - k;
+            finish(it.skip(k), tail, base, stride, cnt, out);
+        }
+        3 => {
+            let k = k.min(n);
+            {
+                let vals = &mut out.values;
+                let mut j = 0;
+                it.by_ref().take(k).for_each(|y| {
+                    vals.push((j, y));
+                    j += 1;
+                });
+            }
+            base = k;
+            stride = 1;
+            cnt = n - k;
+            finish(it, tail, base, stride, cnt, out);
+        }
+        _ => {
+            let k = k.max(1);
+            base = 0;
+            stride = k;
+            cnt = n.div_ceil(k);
+            finish(it.step_by(k), tail, base, stride, cnt, out);
+        }
     }
 }
 
